@@ -374,10 +374,11 @@ package gnet
 //@   ensures !old(c.opened) ==> err == nil
 //@   ensures old(c.opened) && !c.opened ==> c.phase == 2 && nclose[c] == 1 && owner[c.fd] == nil && reg(el.connections, c.fd) != c
 //@   ensures [C18] old(c.opened) && hardfail[c.fd] && !old(hardfail[c.fd]) ==> !c.opened && nclose[c] == 1 && cerr[c]
+//@   ensures [C18] old(c.opened) && regfail[c.fd] && !old(regfail[c.fd]) ==> !c.opened && nclose[c] == 1 && cerr[c]
 //@   ensures [C18] old(shutreq) ==> shutreq
 //@   ensures [C18] err == errorx.ErrEngineShutdown ==> shutreq
 //@   loop 1:
-//@     invariant (hardfail[c.fd] <==> old(hardfail[c.fd])) && (old(shutreq) ==> shutreq) &&
+//@     invariant (hardfail[c.fd] <==> old(hardfail[c.fd])) && (regfail[c.fd] <==> old(regfail[c.fd])) && (old(shutreq) ==> shutreq) &&
 //@          el == el$0 && c == c$0 && c.loop == el && c.fd == old(c.fd) && elwf(el) && c.opened && CI(c) && ocnt(c) > 0 && sent >= 0 &&
 //@          acc(c) == old(acc(c)) && c.cons == old(c.cons) && spos[c.fd] >= old(spos[c.fd]) && isET == isET(el) && chunk == el.engine.opts.EdgeTriggeredIOChunk &&
 //@          len(c.buffer) == old(len(c.buffer)) && c.unflushed == old(c.unflushed) &&
@@ -399,9 +400,10 @@ package gnet
 //@   ensures old(c.opened) && !c.opened ==> err != nil && c.phase == 2 && nclose[c] == 1 && owner[c.fd] == nil && reg(c.loop.connections, c.fd) != c
 //@   ensures !old(c.opened) ==> err != nil && n == 0
 //@   ensures [C18] old(c.opened) && hardfail[c.fd] && !old(hardfail[c.fd]) ==> !c.opened && nclose[c] == 1 && cerr[c]
+//@   ensures [C18] old(c.opened) && regfail[c.fd] && !old(regfail[c.fd]) ==> !c.opened && nclose[c] == 1 && cerr[c]
 //@   ensures [C18] old(shutreq) ==> shutreq
 //@   loop 1:
-//@     invariant (old(shutreq) ==> shutreq) && (hardfail[c.fd] <==> old(hardfail[c.fd])) &&
+//@     invariant (old(shutreq) ==> shutreq) && (hardfail[c.fd] <==> old(hardfail[c.fd])) && (regfail[c.fd] <==> old(regfail[c.fd])) &&
 //@          c == c$0 && c.loop == old(c.loop) && c.fd == old(c.fd) && elwf(c.loop) && c.opened && CI(c) && ocnt(c) == 0 && c.cons == old(c.cons) &&
 //@          n == len(data$0) && isET == isET(c.loop) && bufsepw(c, data) && arr(data) == arr(data$0) && len(data) <= len(data$0) &&
 //@          off(data) == off(data$0) + (len(data$0) - len(data)) && acc(c) == old(acc(c)) + (len(data$0) - len(data)) &&
@@ -422,6 +424,7 @@ package gnet
 //@   ensures !c.isDatagram ==> CIx(c) && acc(c) >= old(acc(c)) && (err == nil ==> acc(c) == old(acc(c)) + len(buf))
 //@   ensures !c.isDatagram ==> forall i :: 0 <= i && i < old(acc(c)) ==> aat(c, i) == old(aat(c, i))
 //@   ensures !c.isDatagram && err == nil ==> forall j :: 0 <= j && j < len(buf) ==> aat(c, old(acc(c)) + j) == old(buf[j])
+//@   ensures !c.isDatagram && err != nil ==> ocnt(c) == 0 && old(ocnt(c)) == 0
 //@   loop 1:
 //@     invariant c == c$0 && !c.isDatagram && c.opened && CIx(c) && bufsepw(c, buf) && arr(buf) == arr(buf$0) && len(buf) <= len(buf$0) &&
 //@          off(buf) == off(buf$0) + (len(buf$0) - len(buf)) && acc(c) == old(acc(c)) + (len(buf$0) - len(buf)) && ocnt(c) == 0 &&
@@ -438,7 +441,7 @@ package gnet
 //@   modifies-all-except eventloop, engine, Options, netpoll.Poller, listener, asyncWriteHook, asyncWritevHook, map[int]*listener, ghost:kdata, ghost:kpos, ghost:nopen, ghost:nacb
 //@   modifies nopen[c]
 //@   ensures c.loop == el && c.fd == old(c.fd) && elwf(el) && nopen[c] == 1
-//@   ensures c.opened ==> CIx(c) && (err == nil ==> CI(c))
+//@   ensures c.opened ==> CI(c)
 //@   ensures !c.opened ==> CZ(c) && c.phase == 2 && nclose[c] == 1 && reg(el.connections, c.fd) != c
 //
 // register0: a new connection is added to the poller and the registry and opened; if the poller refuses it, its descriptor
@@ -451,7 +454,7 @@ package gnet
 //@   modifies nopen[c], el.connections.connCount, *gfd.monoSeq, mem(c.gfd)
 //@   ensures c.loop == el && c.fd == old(c.fd) && elwf(el)
 //@   ensures nopen[c] == 1 || (nopen[c] == 0 && !c.opened && owner[c.fd] == nil && err != nil && reg(el.connections, c.fd) != c)
-//@   ensures c.opened ==> nopen[c] == 1 && CIx(c) && (err == nil ==> CI(c))
+//@   ensures c.opened ==> nopen[c] == 1 && CI(c)
 //@   ensures !c.opened && nopen[c] == 1 ==> CZ(c) && c.phase == 2 && nclose[c] == 1 && reg(el.connections, c.fd) != c
 // C14 (use of the registry): a registration the poller refuses leaves the registry exactly as it was.
 //@   ensures [C14] nopen[c] == 0 ==> el.connections.connCount == old(el.connections.connCount) && (forall f :: reg(el.connections, f) == old(reg(el.connections, f)))
@@ -546,7 +549,8 @@ package gnet
 //@   ensures [C18] old(shutreq) ==> shutreq
 //@   ensures [C18] err == errorx.ErrEngineShutdown ==> shutreq
 //
-// Flush: sends what ReadFrom queued; afterwards pending output is under write interest again (level-triggered mode).
+// Flush: sends what ReadFrom queued; afterwards pending output is under write interest again (level-triggered mode);
+// a poller that refuses the registration change closes the connection with that error.
 //@ func (c *conn) Flush() (err error)
 //@   requires c != nil && c.loop != nil && elwf(c.loop)
 //@   requires (c.opened ==> CI(c)) && (!c.opened ==> CZ(c))
@@ -556,6 +560,8 @@ package gnet
 //@   ensures c.opened ==> old(c.opened) && (err == nil ==> CI(c)) && acc(c) == old(acc(c)) && c.cons == old(c.cons) && len(c.buffer) == old(len(c.buffer))
 //@   ensures c.opened ==> forall i :: 0 <= i && i < acc(c) ==> aat(c, i) == old(aat(c, i))
 //@   ensures !c.opened ==> CZ(c)
+//@   ensures old(c.opened) && !c.opened ==> c.phase == 2 && nclose[c] == 1 && owner[c.fd] == nil && reg(c.loop.connections, c.fd) != c
+//@   ensures [C18] old(c.opened) && regfail[c.fd] && !old(regfail[c.fd]) ==> !c.opened && nclose[c] == 1 && cerr[c]
 //
 // ReadFrom: everything the reader returns is appended to the accepted stream (it is sent by the next Flush).
 //@ func (c *conn) ReadFrom(r io.Reader) (n int64, err error)
